@@ -43,9 +43,28 @@ miri_shards() { # workload nshards cases_per_shard
   return 0
 }
 
+relcheck_stage() { # the quick workload again in a build with overflow checks and debug assertions
+  local cmd="$1"
+  if (cd "$H" && CARGO_TARGET_DIR="$H/target/relcheck" cargo build --profile relcheck --offline >"$LOGS/relcheck-build.log" 2>&1); then
+    mkdir -p "$OUT/relcheck"; cp /verif/known_findings.json "$OUT/relcheck/" 2>/dev/null
+    "$H/target/relcheck/relcheck/tmon" "$cmd" --tier quick --seed "$SEED" --verif "$OUT/relcheck" >"$LOGS/relcheck-run.log" 2>&1
+    local code=$?
+    local evals=$(sed -n 's/.*evaluations=\([0-9]*\).*/\1/p' "$LOGS/relcheck-run.log" | tail -1)
+    if [ "$code" -eq 1 ]; then rc=1; note "{\"tool\":\"overflow-checks+debug-assertions build\",\"workload\":\"$cmd quick workload\",\"inputs\":${evals:-0},\"reports\":1,\"log\":\"$LOGS/relcheck-run.log\"}"
+    elif [ "$code" -eq 0 ]; then note "{\"tool\":\"overflow-checks+debug-assertions build\",\"workload\":\"$cmd quick workload\",\"inputs\":${evals:-0},\"reports\":0}"
+    else [ $rc -eq 0 ] && rc=2; note "{\"tool\":\"overflow-checks+debug-assertions build\",\"status\":\"exit $code\"}"; fi
+  else
+    [ $rc -eq 0 ] && rc=2; note "{\"tool\":\"overflow-checks+debug-assertions build\",\"status\":\"build failed\"}"
+  fi
+}
+
 case "$P" in
+  C09)
+    relcheck_stage c09
+    ;;
   C03|C04)
     cmd=$(echo "$P" | tr 'A-Z' 'a-z')
+    relcheck_stage "$cmd"
     if asan_build; then
       ASAN_OPTIONS="halt_on_error=1:abort_on_error=0:detect_leaks=0" "$H/target/asan/x86_64-unknown-linux-gnu/release/tmon" "$cmd" --tier quick --seed "$SEED" --verif "$OUT/asan" >"$LOGS/asan-run.log" 2>&1
       code=$?
